@@ -303,15 +303,22 @@ Definition c06_holder_resources_norecheck_full : Prop :=
   forall P progs g ls t j c, reachable (step P) (init progs) (g, ls) -> gmulti g = false ->
     In (j, c) (handles (ls t)) -> exists x, get_inst g j = Some x /\ i_locked x = false /\ i_dy_linked x = true.
 Definition late_nr := fst (run (step P9nr) late_sched (init late_progs)).
+Lemma c06_recheck_witness :
+  In (0%nat, mk_cfg (defs PubSub) reqA KCreate) (handles (snd late_nr 1%nat)) /\
+  gmulti (fst late_nr) = false /\
+  exists y, get_inst (fst late_nr) 0%nat = Some y /\ i_locked y = true /\ i_dy_linked y = false.
+Proof. vm_compute. split; [left; reflexivity|]. split; [reflexivity|]. eexists. repeat split. Qed.
+Print Assumptions c06_recheck_witness.
+
 Theorem c06_recheck_refuted : ~ c06_holder_resources_norecheck_full.
 Proof.
   intros H.
-  assert (Hin : In (0%nat, mk_cfg (defs PubSub) reqA KCreate) (handles (snd late_nr 1%nat))) by (vm_compute; left; reflexivity).
   assert (Hr : reachable (step P9nr) (init late_progs) (fst late_nr, snd late_nr)) by (unfold late_nr; apply reachable_run_pair).
-  assert (Hmul : gmulti (fst late_nr) = false) by (vm_compute; reflexivity).
-  destruct (H P9nr late_progs (fst late_nr) (snd late_nr) 1%nat 0%nat (mk_cfg (defs PubSub) reqA KCreate) Hr Hmul Hin) as (x & Hx & Hl & _).
-  assert (Hx' : exists y, get_inst (fst late_nr) 0%nat = Some y /\ i_locked y = true) by (eexists; vm_compute; split; reflexivity).
-  destruct Hx' as (y & Hy & Hyl). rewrite Hy in Hx. injection Hx as Exy. rewrite <- Exy in Hl. rewrite Hyl in Hl. discriminate.
+  destruct c06_recheck_witness as (Hin & Hmul & y & Hy & Hyl & _).
+  (* from here on the state is opaque: no tactic may start evaluating the run *)
+  revert Hr Hin Hmul Hy. generalize (fst late_nr) as g0, (snd late_nr) as ls0. intros g0 ls0 Hr Hin Hmul Hy.
+  destruct (H P9nr late_progs g0 ls0 1%nat 0%nat (mk_cfg (defs PubSub) reqA KCreate) Hr Hmul Hin) as (x & Hx & Hl & _).
+  rewrite Hy in Hx. injection Hx as Exy. rewrite <- Exy in Hl. rewrite Hyl in Hl. discriminate.
 Qed.
 Print Assumptions c06_recheck_refuted.
 
@@ -333,11 +340,19 @@ Definition multi_progs := progs3 [OCreate reqA; ODrop 0] [OOpen reqU; ODrop 0] [
 Definition multi_sched : list nat :=
   (repeat 0 17 ++ repeat 1 17 ++ repeat 0 3 ++ repeat 1 3 ++ repeat 0 2 ++ repeat 1 1 ++ repeat 0 3 ++ repeat 2 17 ++ repeat 1 3)%nat.
 Definition multi_cfg := fst (run (step P9) multi_sched (init multi_progs)).
+Lemma c06_multi_witness :
+  gmulti (fst multi_cfg) = true /\ cur (fst multi_cfg) = None /\
+  exists x, get_inst (fst multi_cfg) 1%nat = Some x /\ i_dy x = DFinal /\ i_locked x = false /\ i_members x = [2%nat].
+Proof. vm_compute. split; [reflexivity|]. split; [reflexivity|]. eexists. repeat split. Qed.
+Print Assumptions c06_multi_witness.
+
 Theorem c06_single_last_refuted : ~ c06_single_last_full.
 Proof.
   intros H.
   assert (Hr : reachable (step P9) (init multi_progs) (fst multi_cfg, snd multi_cfg)) by (unfold multi_cfg; apply reachable_run_pair).
-  specialize (H P9 multi_progs (fst multi_cfg) (snd multi_cfg) eq_refl Hr). vm_compute in H. discriminate.
+  destruct c06_multi_witness as (Hm & _).
+  revert Hr Hm. generalize (fst multi_cfg) as g0, (snd multi_cfg) as ls0. intros g0 ls0 Hr Hm.
+  rewrite (H P9 multi_progs g0 ls0 eq_refl Hr) in Hm. discriminate.
 Qed.
 Print Assumptions c06_single_last_refuted.
 
@@ -350,10 +365,9 @@ Theorem c06_live_is_linked_refuted : ~ c06_live_is_linked_full.
 Proof.
   intros H.
   assert (Hr : reachable (step P9) (init multi_progs) (fst multi_cfg, snd multi_cfg)) by (unfold multi_cfg; apply reachable_run_pair).
-  assert (Hx : exists x, get_inst (fst multi_cfg) 1%nat = Some x /\ i_dy x = DFinal /\ i_locked x = false /\ i_members x = [2%nat])
-    by (eexists; vm_compute; repeat split).
-  destruct Hx as (x & Hx & Hd & Hl & _).
-  specialize (H P9 multi_progs (fst multi_cfg) (snd multi_cfg) 1%nat x eq_refl Hr Hx Hd Hl). vm_compute in H. discriminate.
+  destruct c06_multi_witness as (_ & Hc & x & Hx & Hd & Hl & _).
+  revert Hr Hc Hx. generalize (fst multi_cfg) as g0, (snd multi_cfg) as ls0. intros g0 ls0 Hr Hc Hx.
+  rewrite (H P9 multi_progs g0 ls0 1%nat x eq_refl Hr Hx Hd Hl) in Hc. discriminate.
 Qed.
 Print Assumptions c06_live_is_linked_refuted.
 
